@@ -41,6 +41,7 @@ struct thr {
 	int yielding;
 	int prio;
 	long nsteps;
+	long nsleeps;
 	long pending_snap;   /* trace index whose post-state snapshot is taken when this thread next parks */
 };
 static struct thr T[MAXT];
@@ -406,10 +407,21 @@ static void maybe_advance_clock (void) {
 	}
 }
 
+static int (*chooser) (int n, const int *runnable, int cur) = NULL;
+void vrt_set_chooser (int (*fn) (int, const int *, int)) { chooser = fn; }
+long vrt_steps (void) { return steps; }
+long vrt_sleeps_of (int tid) { return tid > 0 && tid < nthr ? T[tid].nsleeps : 0; }
+int vrt_is_blocked (int tid) { return tid > 0 && tid < nthr && T[tid].state == ST_BLOCKED; }
+int vrt_is_finished (int tid) { return tid > 0 && tid < nthr && T[tid].state == ST_FINISHED; }
+
 static int pick (struct thr *me) {
 	int i, n = 0, c[MAXT];
 	for (i = 1; i < nthr; i++) if (T[i].state == ST_RUNNABLE) c[n++] = i;
 	if (n == 0) return -1;
+	if (chooser != NULL) {
+		int k = chooser (n, c, me != NULL && me->state == ST_RUNNABLE ? me->id : -1);
+		for (i = 0; i < n; i++) if (c[i] == k) return k;
+	}
 	if (strategy == 1) { /* PCT-like: highest priority runnable; a yielding thread drops to the bottom */
 		int best = -1;
 		for (i = 0; i < npct; i++) if (pct_changes[i] == steps && me != NULL) me->prio = -(int) steps;
@@ -697,6 +709,7 @@ static long futex_wait (struct thr *me, volatile uint32_t *uaddr, uint32_t val, 
 	me->deadline = dl;
 	me->wake_reason = 0;
 	vrt_count ("futex_sleep");
+	me->nsleeps++;
 	log_ev (me->id, K_FWAIT, 0, uaddr, val, 0, 1, "sleep", 0);
 	{
 		char here;
